@@ -37,6 +37,8 @@ type ParamSpec struct {
 }
 
 type Case struct {
+	// CT: the request's Content-Type ("" = application/json); always a spelling of JSON
+	CT     string      `json:"ct,omitempty"`
 	Params []ParamSpec `json:"params"`
 	// body features
 	HasBody  bool   `json:"has_body"`
@@ -231,7 +233,11 @@ func newRequest(c Case) *http.Request {
 		req.GetBody = nil
 	}
 	if c.Body != "" {
-		req.Header.Set("Content-Type", "application/json")
+		ct := c.CT
+		if ct == "" {
+			ct = "application/json"
+		}
+		req.Header.Set("Content-Type", ct)
 	}
 	var q []string
 	var cookies []string
@@ -605,6 +611,7 @@ func gen(t *rapid.T) Case {
 			c.Invalid = false
 		}
 	}
+	c.CT = rapid.SampledFrom([]string{"", "", "application/json; charset=utf-8", "application/json;charset=UTF-8", "application/json; profile=\"x\""}).Draw(t, "ct")
 	c.Skip = rapid.IntRange(0, 3).Draw(t, "skip") == 0
 	c.Auth = rapid.SampledFrom([]string{"none", "none", "pass", "pass-read", "fail", "fail-read"}).Draw(t, "auth")
 	c.Style = rapid.SampledFrom([]string{"server", "client"}).Draw(t, "style")
